@@ -153,9 +153,13 @@ impl Builtins {
                                 pos.clone(),
                             )
                         })?;
+                        // The imported file is being evaluated from here on: an import of
+                        // it further down the chain is a cycle.
+                        let mut child_stack = import_stack.clone();
+                        child_stack.push(path.clone());
                         let mut vm =
                             VM::with_pointer(self.strict, op_pointer, base_path)
-                                .with_import_stack(import_stack.clone());
+                                .with_import_stack(child_stack);
                         vm.run(env)?;
                         let result = Rc::new(vm.symbols_to_tuple(true));
                         env.borrow_mut()
